@@ -363,6 +363,13 @@ def _helper_sanitises(h, depth):
     for r in rets:
         if _sanitiser_ok(r.value, defs, h, depth):
             continue
+        # the chain of replacements held in a local that is re-bound step by step: its closed form
+        try:
+            closed = h.canon.expr(r.value)
+        except Exception:       # noqa
+            closed = None
+        if closed is not None and not isinstance(closed, ast.Name) and _sanitiser_ok(closed, defs, h, depth):
+            continue
         if not isinstance(r.value, ast.Name):
             return False
         name = r.value.id
